@@ -88,7 +88,10 @@ def generate(seed, tier="quick"):
             sid_n += 1
             eid_n += 1
             sites[f"s{sid_n}"] = {"op": rng.choice(["eq", "in", "le"]), "place": "direct", "arg": None, "prev": None}
-            events.append({"t": "bind", "var": f"x{var_n}", "val": ["badcopy", rng.randint(0, 5)]})
+            bc = ["badcopy", rng.randint(0, 5)]
+            # bare, or inside a container type that the session has (probably) already copied successfully
+            bc = rng.choice([bc, ["list", [bc]], ["list", [["int", 1], bc]], ["tuple", [["int", 1], bc]], ["dict", [[["str", "k"], bc]]], ["dc", "DC", [["a", bc]]]])
+            events.append({"t": "bind", "var": f"x{var_n}", "val": bc})
             events.append({"t": "cmp", "eid": f"e{eid_n}", "site": f"s{sid_n}", "var": f"x{var_n}", "style": "rec", "badcopy": True})
         tests.append({"name": f"test_t{ti}", "events": events})
     # direct sites may be used by one textual event only: guaranteed by construction (fresh site per comparison)
